@@ -177,7 +177,7 @@ def run_shard(prop: str, tier: str, seed: int, shard: int, nshards: int, out: st
 
     faulthandler.enable()
     mod = load_check(prop)
-    budget = mod.BUDGET_S[tier]
+    budget = mod.BUDGET_S[tier] * float(os.environ.get("VCHECK_BUDGET_SCALE", "1") or 1)
     ctx = Ctx(prop, tier, seed, shard, nshards, budget)
     status = "ok"
     try:
